@@ -8,7 +8,9 @@ RULE = ("non-negative integer count matrices (1..8 x 1..8, some up to 40 x 12; e
         "triples in shuffled order, CSR/CSC with shuffled in-row order, explicitly stored zeros and duplicate entries — "
         "x prior_strength in [1e-4, 10] x exact / approximate prior x weight_power in {0.5, 1, 2, 3} x supervised "
         "targets (2..4 classes, classes made only of empty rows included) x int64 / float64 data.  Every case also "
-        "carries a row permutation, a column permutation, a second matrix and two scalars for the linearity check.  "
+        "carries a row permutation, a column permutation, a second matrix and two scalars for the linearity check; the "
+        "fitted estimator is then re-fitted on the second matrix and compared with a fresh one, and k * M is presented "
+        "in a narrow dtype (int8/uint8/int16/int32/float32, row totals beyond the type's range) against int64.  "
         "Non-trivial = a non-canonical presentation (unsorted indices, explicit zeros or duplicates) of a matrix with "
         "an empty row or column and at least one column with >= 2 entries (binary search with a real choice).")
 ASSUMPTIONS = [
@@ -80,7 +82,9 @@ def _case(rng, big=False):
             "sw": rng.choice([0.5, 0.95]), "y": y if labels is None else [labels[c] for c in y],
             "supervised": rng.random() < 0.5, "perm_r": pr, "perm_c": pc,
             "ab": [rng.choice([0.5, 2.0, 3.0]), rng.choice([1.0, 0.25, 7.0])],
-            "dtype": rng.choice(["int64", "float64"])}
+            "dtype": rng.choice(["int64", "float64"]),
+            # the same counts times k, stored in a narrow type whose range holds every entry but not every row total
+            "narrow": rng.choice([[14, "int8"], [25, "uint8"], [25, "int16"], [3000, "int16"], [1, "float32"], [25, "int32"]])}
 
 
 def corpus():
@@ -220,6 +224,29 @@ def run_impl(case):
             r["lin_err"] = _fl(np.max(np.abs(Ld - (a * Td + b * T2d))) if Ld.size else 0.0)
             r["lin_scale"] = _fl(np.max(np.abs(Ld)) if Ld.size else 0.0)
             r["input_unchanged"] = (_snapshot(np, sp, X) == before)
+            # history: the same estimator re-fitted on a second matrix of the same shape acts as a fresh one
+            Xb, _ = _build(np, sp, fmt, case["M2"], _canon_raw(case["M2"]), dtype)
+            try:
+                fresh = fitted(Xb, y)
+                Fb = fresh.transform(Xb)
+                m.fit(Xb, y)
+                Rb = m.transform(Xb)
+                dn = lambda Z: np.asarray(Z.todense()) if sp.issparse(Z) else np.asarray(Z)
+                r["refit_same"] = bool(np.array_equal(dn(Fb), dn(Rb), equal_nan=True)
+                                       and np.array_equal(np.asarray(fresh.information_weights_), np.asarray(m.information_weights_), equal_nan=True))
+            except Exception as e:
+                r["refit_exc"] = f"{type(e).__name__}: {e}"[:200]
+            # storage width: k * M held in a narrow dtype against the same counts in int64
+            if fmt in ("csr", "csc", "coo") and case.get("narrow"):
+                k, nd = case["narrow"]
+                Mk = [[k * v for v in row] for row in M]
+                rawk = [[e[0], e[1], k * e[2]] for e in case["raw"]]
+                Xn, _ = _build(np, sp, fmt, Mk, rawk, np.dtype(nd))
+                Xw, _ = _build(np, sp, fmt, Mk, rawk, np.dtype("int64"))
+                wn = np.asarray(information_weight(Xn, case["s"], case["approx"]), dtype=np.float64)
+                ww = np.asarray(information_weight(Xw, case["s"], case["approx"]), dtype=np.float64)
+                r["narrow_raw"] = [[_fl(a), _fl(b)] for a, b in zip(wn, ww)]
+                r["narrow_rowmax"] = max(sum(row) for row in Mk)
             # scipy's canonical CSC of the same object (correspondence of the model's canonCSC)
             C = sp.csc_matrix(Xs, copy=True)
             C.sort_indices(); C.sum_duplicates()
@@ -465,6 +492,17 @@ def oracle(case, outs):
                 fails.append(_F("iw.transform-creates-nonzero", f"{tag} non-zero created at {created[:3]}"))
             if not _isnum(r["lin_err"]) or r["lin_err"] > 1e-9 * max(1.0, r["lin_scale"] if _isnum(r["lin_scale"]) else 1.0):
                 fails.append(_F("iw.transform-not-linear", f"{tag} |T(aX+bY) - aT(X) - bT(Y)| = {r['lin_err']}"))
+    # history and storage width
+    for fmt in FORMATS:
+        r = o["fmt"].get(fmt, {})
+        if r.get("refit_same") is False:
+            fails.append(_F("iw.refit-differs-from-fresh", f"[{fmt}] estimator fitted on M then re-fitted on M2={case['M2']} differs from a fresh estimator fitted on M2"))
+        if "refit_exc" in r and "exc" not in r:
+            fails.append(_F("iw.raises.refit", f"[{fmt}] {r['refit_exc']}"))
+        nr_ = r.get("narrow_raw")
+        if nr_ and all(_isnum(b) for a, b in nr_) and not all(_isnum(a) and _close(a, b, 1e-5 if case['narrow'][1] == 'float32' else 1e-9) for a, b in nr_):
+            fails.append(_F("iw.storage-width", f"[{fmt}] {case['narrow'][0]} * M stored as {case['narrow'][1]} (largest row total {r['narrow_rowmax']}) gives weights "
+                            f"{[a for a, b in nr_]}, as int64 {[b for a, b in nr_]}; M={M}"))
     # permutations
     pc = case["perm_c"]
     for fmt in ("csr", "csc_raw"):
